@@ -115,6 +115,12 @@ CLAIMED.update({
          LEDGER_NOTE.replace("Default simulator genesis.", "Seeded genesis per run.") + " Active-set selection is checked at the granularity of the engine's own 100k-XRD sort key.", "5 C42"),
 })
 
+CLAIMED.update({
+ "C39": ("exploration", "deterministic simulation with fault injection: seeded histories in which the account owner reconfigures default rule / preferences / authorized depositors / vault existence while a depositor issues guarded single and batch deposits (refund and abort variants) with mixed batches and named / proven / unproven / unlisted badges, with injected system errors and restarts; configuration model as oracle, balances of receiver, depositor and a bystander read from the store",
+         "Every guarded deposit ends exactly as the model predicts: all deposited iff all buckets allowed or the named badge is listed and proven; refused + listed badge not proven fails; otherwise refund variants return everything and abort variants fail; never a partial deposit; only the receiver's vaults of the batch resources change; one RejectedDepositEvent per refused bucket on refunds.",
+         LEDGER_NOTE + " Latest account logic only (an unlisted named badge means refund / abort).", "5 C39"),
+})
+
 PURE = "pure function of one input value: no schedule, clock, I/O, fault or history for a simulator to own (DESIGN section 6)"
 NOT_APPLICABLE = {
  "C16": "key mapping is a pure bijection on keys; " + PURE,
